@@ -161,3 +161,111 @@ Proof.
   destruct G as (Ha & _ & Hb). split; [|exact Hb].
   intros i j Hi Hj. apply Ha; [lia|exact Hj].
 Qed.
+
+(* ---------- LU: the small loops ---------- *)
+Lemma lu_col_spec m j (A : @Mx R) :
+  let A' := fst (lu_col ROps m j A) in
+  let col := snd (lu_col ROps m j A) in
+  (forall i, col i = A' i j) /\
+  (forall i k, k <> j -> A' i k = A i k) /\
+  (forall i, (i < m)%nat -> A' i j = A i j - rsum (Nat.min i j) (fun t => A i t * A' t j)) /\
+  (forall i, (m <= i)%nat -> A' i j = A i j).
+Proof.
+  cbv zeta. unfold lu_col.
+  apply (for_up_inv (fun r (st : @Mx R * @Vec R) =>
+    (forall i, snd st i = fst st i j) /\
+    (forall i k, k <> j -> fst st i k = A i k) /\
+    (forall i, (i < r)%nat -> fst st i j = A i j - rsum (Nat.min i j) (fun t => A i t * fst st t j)) /\
+    (forall i, (r <= i)%nat -> fst st i j = A i j))).
+  - cbn [fst snd]. repeat split; intros; try reflexivity; lia.
+  - intros r [A1 col] Hr (H1 & H2 & H3 & H4). cbn [fst snd Nat.add] in *. rops.
+    change (osumn ROps) with rsum.
+    assert (Es : rsum (Nat.min r j) (fun k => A1 r k * col k)
+                 = rsum (Nat.min r j) (fun t => A r t * A1 t j)).
+    { apply rsum_ext. intros t Ht. rewrite H1, H2 by lia. reflexivity. }
+    rewrite Es. repeat split.
+    + intros i. unfold updv. rewrite upd_eq, Nat.eqb_refl, andb_true_r.
+      destruct (Nat.eqb r i); [reflexivity|apply H1].
+    + intros i k Hk. rewrite upd_other by lia. apply H2, Hk.
+    + intros i Hi. destruct (Nat.eq_dec i r) as [->|Hne].
+      * rewrite upd_same, H1, H4 by lia. f_equal. apply rsum_ext. intros t Ht.
+        rewrite upd_other by lia. reflexivity.
+      * rewrite upd_other by lia. rewrite H3 by lia. f_equal. apply rsum_ext. intros t Ht.
+        rewrite upd_other by lia. reflexivity.
+    + intros i Hi. rewrite upd_other by lia. apply H4. lia.
+Qed.
+
+Lemma lu_pivot_spec m j (col : @Vec R) :
+  let p := lu_pivot ROps m j col in
+  (j <= p)%nat /\ ((j < m)%nat -> (p < m)%nat) /\
+  (forall i, (j <= i < m)%nat -> Rabs (col i) <= Rabs (col p)).
+Proof.
+  cbv zeta. unfold lu_pivot.
+  assert (G : forall cnt, let p := for_up cnt (j + 1)
+      (fun i p => if gtb ROps (oabs ROps (col i)) (oabs ROps (col p)) then i else p) j in
+      (j <= p < j + 1 + cnt)%nat /\ (forall i, (j <= i < j + 1 + cnt)%nat -> Rabs (col i) <= Rabs (col p))).
+  { intros cnt. cbv zeta.
+    apply (for_up_inv (fun cnt p => (j <= p < j + 1 + cnt)%nat /\
+              (forall i, (j <= i < j + 1 + cnt)%nat -> Rabs (col i) <= Rabs (col p)))).
+    - split; [lia|]. intros i Hi. replace i with j by lia. lra.
+    - intros c p Hc [Hp Hmax]. unfold gtb. rops.
+      destruct (Rltb (Rabs (col p)) (Rabs (col (j + 1 + c)%nat))) eqn:E.
+      + apply Rltb_true in E. split; [lia|]. intros i Hi.
+        destruct (Nat.eq_dec i (j + 1 + c)) as [->|Hne]; [lra|].
+        specialize (Hmax i ltac:(lia)). lra.
+      + apply Rltb_false in E. split; [lia|]. intros i Hi.
+        destruct (Nat.eq_dec i (j + 1 + c)) as [->|Hne]; [lra|].
+        apply Hmax. lia. }
+  destruct (G (m - (j + 1))%nat) as [Hp Hmax]. split; [lia|]. split; [lia|].
+  intros i Hi. apply Hmax. lia.
+Qed.
+
+Lemma swap_rows_spec n p j (A : @Mx R) :
+  forall a k, swap_rows n p j A a k
+              = if k <? n then (if Nat.eqb a j then A p k else if Nat.eqb a p then A j k else A a k)
+                else A a k.
+Proof.
+  unfold swap_rows.
+  apply (for_up_inv (fun cnt (X : @Mx R) => forall a k,
+    X a k = if k <? cnt then (if Nat.eqb a j then A p k else if Nat.eqb a p then A j k else A a k)
+            else A a k)).
+  - intros a k. reflexivity.
+  - intros c X Hc IH a k. cbn [Nat.add].
+    assert (Ec : forall b, X b c = A b c) by (intros b; rewrite IH, Nat.ltb_irrefl; reflexivity).
+    destruct (Nat.eq_dec k c) as [->|Hne].
+    + rewrite (proj2 (Nat.ltb_lt c (S c))) by lia.
+      destruct (Nat.eqb_spec a j) as [->|Haj]; [rewrite upd_same; apply Ec|].
+      rewrite upd_other by lia.
+      destruct (Nat.eqb_spec a p) as [->|Hap]; [rewrite upd_same; apply Ec|].
+      rewrite upd_other by lia. apply Ec.
+    + rewrite !upd_other by lia. rewrite IH.
+      destruct (Nat.ltb_spec k c), (Nat.ltb_spec k (S c)); try lia; reflexivity.
+Qed.
+
+Lemma lu_scale_spec m j (A : @Mx R) : (j < m)%nat ->
+  (A j j <> 0 ->
+     (forall a, (j < a < m)%nat -> lu_scale ROps m j A a j = A a j / A j j) /\
+     (forall a k, ~ (k = j /\ (j < a < m)%nat) -> lu_scale ROps m j A a k = A a k)) /\
+  (A j j = 0 -> forall a k, lu_scale ROps m j A a k = A a k).
+Proof.
+  intros Hj. unfold lu_scale. rewrite (proj2 (Nat.ltb_lt j m) Hj). cbn [andb]. split.
+  - intros Hnz. rewrite (proj2 (nez_R _) Hnz).
+    assert (G : forall cnt,
+      let X := for_up cnt (j + 1) (fun i A1 => upd A1 i j (odiv ROps (A1 i j) (A1 j j))) A in
+      (forall a, (j < a < j + 1 + cnt)%nat -> X a j = A a j / A j j) /\
+      (forall a k, ~ (k = j /\ (j < a < j + 1 + cnt)%nat) -> X a k = A a k)).
+    { intros cnt. cbv zeta.
+      apply (for_up_inv (fun cnt (X : @Mx R) =>
+        (forall a, (j < a < j + 1 + cnt)%nat -> X a j = A a j / A j j) /\
+        (forall a k, ~ (k = j /\ (j < a < j + 1 + cnt)%nat) -> X a k = A a k))).
+      - split; [intros; lia|reflexivity].
+      - intros c X Hc [IH1 IH2]. rops. split.
+        + intros a Ha. destruct (Nat.eq_dec a (j + 1 + c)) as [->|Hne].
+          * rewrite upd_same, !IH2 by lia. reflexivity.
+          * rewrite upd_other by lia. apply IH1. lia.
+        + intros a k Hak. rewrite upd_other by lia. apply IH2. lia. }
+    destruct (G (m - (j + 1))%nat) as [G1 G2]. split.
+    + intros a Ha. apply G1. lia.
+    + intros a k Hak. apply G2. lia.
+  - intros Hz. rewrite (proj2 (nez_R_false _) Hz). reflexivity.
+Qed.
